@@ -820,23 +820,162 @@ func ruleR167(c *Ctx) {
 	}
 	info := root.TypesInfo
 	isScope := func(t types.Type) bool { return isNamed(t, modPath, "Identifiers") }
+	scopeParamOf := func(fd *ast.FuncDecl) types.Object {
+		var res types.Object
+		if fd.Type.Params != nil {
+			for _, fl := range fd.Type.Params.List {
+				for _, nm := range fl.Names {
+					if isScope(info.TypeOf(nm)) {
+						res = info.Defs[nm]
+					}
+				}
+			}
+		}
+		return res
+	}
+	paramIndex := func(fd *ast.FuncDecl, obj types.Object) int {
+		i := 0
+		if fd.Type.Params != nil {
+			for _, fl := range fd.Type.Params.List {
+				for _, nm := range fl.Names {
+					if info.Defs[nm] == obj {
+						return i
+					}
+					i++
+				}
+			}
+		}
+		return -1
+	}
 	n := 0
+	// check: the value expression e of a Let node built in fd (at pos) comes from a parse call that got fd's own scope
+	var check func(fd *ast.FuncDecl, e ast.Expr, before token.Pos, key string, pos token.Pos, depth int)
+	check = func(fd *ast.FuncDecl, e ast.Expr, before token.Pos, key string, pos token.Pos, depth int) {
+		vid, ok := ast.Unparen(e).(*ast.Ident)
+		if !ok {
+			n++
+			c.OK(key, pos, "the value is built in place")
+			return
+		}
+		vobj := info.ObjectOf(vid)
+		// a parameter of a helper that builds the node: the value comes from the callers
+		selfOnly := true // value = Optimize(value, ..): the parameter is only ever replaced by a function of itself
+		ast.Inspect(fd.Body, func(y ast.Node) bool {
+			as, ok := y.(*ast.AssignStmt)
+			if !ok || len(as.Lhs) != len(as.Rhs) {
+				return true
+			}
+			for i, l := range as.Lhs {
+				if id, ok := l.(*ast.Ident); ok && info.ObjectOf(id) == vobj && !mentions(info, as.Rhs[i], vobj) {
+					selfOnly = false
+				}
+			}
+			return true
+		})
+		if pi := paramIndex(fd, vobj); pi >= 0 && selfOnly {
+			fobj, _ := info.Defs[fd.Name].(*types.Func)
+			sites := 0
+			if fobj != nil && depth < 2 {
+				for _, f2 := range root.Syntax {
+					for _, d2 := range f2.Decls {
+						cfd, ok := d2.(*ast.FuncDecl)
+						if !ok || cfd.Body == nil {
+							continue
+						}
+						ast.Inspect(cfd.Body, func(y ast.Node) bool {
+							call, ok := y.(*ast.CallExpr)
+							if !ok || pi >= len(call.Args) {
+								return true
+							}
+							if cal := Callee(info, call); cal == nil || cal.Origin() != fobj.Origin() {
+								return true
+							}
+							sites++
+							check(cfd, call.Args[pi], call.Pos(), fmt.Sprintf("%s@%s[%d]", key, cfd.Name.Name, sites), call.Pos(), depth+1)
+							return true
+						})
+					}
+				}
+			}
+			if sites == 0 {
+				n++
+				c.Undecided(key, pos, "the value of the let is a parameter of %s, whose callers were not found", fd.Name.Name)
+			}
+			return
+		}
+		n++
+		// the parse calls that define the value: calls with a scope argument
+		var parseCalls []*ast.CallExpr
+		ast.Inspect(fd.Body, func(y ast.Node) bool {
+			as, ok := y.(*ast.AssignStmt)
+			if !ok || len(as.Rhs) != 1 || as.Pos() > before {
+				return true
+			}
+			if id, ok := as.Lhs[0].(*ast.Ident); !ok || info.ObjectOf(id) != vobj {
+				return true
+			}
+			if call, ok := ast.Unparen(as.Rhs[0]).(*ast.CallExpr); ok {
+				for _, a := range call.Args {
+					if isScope(info.TypeOf(a)) {
+						parseCalls = append(parseCalls, call)
+						break
+					}
+				}
+			}
+			return true
+		})
+		if len(parseCalls) == 0 {
+			c.OK(key, pos, "the value is not the result of a parse call with a scope (a closure literal built in place)")
+			return
+		}
+		scopeParam := scopeParamOf(fd)
+		if scopeParam == nil {
+			c.Undecided(key, pos, "the function has no scope parameter")
+			return
+		}
+		bad := ""
+		for _, call := range parseCalls {
+			for _, a := range call.Args {
+				if !isScope(info.TypeOf(a)) {
+					continue
+				}
+				// the argument has to be the scope parameter itself (or a local with one definition that is it)
+				e := ast.Unparen(a)
+				for d := 0; d < 3; d++ {
+					id, ok := e.(*ast.Ident)
+					if !ok {
+						break
+					}
+					obj := info.ObjectOf(id)
+					if obj == scopeParam {
+						break
+					}
+					if as, i := definingAssign(info, fd, obj); as != nil && len(as.Rhs) == len(as.Lhs) && countAssignments(info, fd, obj) == 1 {
+						e = ast.Unparen(as.Rhs[i])
+						continue
+					}
+					break
+				}
+				if id, ok := e.(*ast.Ident); ok && info.ObjectOf(id) == scopeParam && countAssignments(info, fd, scopeParam) == 0 {
+					continue
+				}
+				bad = nodeStr(c.Fset, a)
+				if id, ok := ast.Unparen(a).(*ast.Ident); ok && countAssignments(info, fd, info.ObjectOf(id)) > 1 {
+					bad += " (assigned more than once: on some path an extended scope)"
+				}
+			}
+		}
+		if bad == "" {
+			c.OK(key, pos, "the value of the let is parsed with the scope the function was given")
+		} else {
+			c.Violation(key, pos, "the value of a let is parsed with the scope %s instead of the scope of the enclosing code: a name that the let itself (or anything else added to that scope) binds is then resolved inside the value, where it is not in scope - in implicit attribute mode the attribute of that name is shadowed (let a = x -> x + a means m.a), with explicit arguments an outer binding is", bad)
+		}
+	}
 	for _, f := range root.Syntax {
 		for _, d := range f.Decls {
 			fd, ok := d.(*ast.FuncDecl)
 			if !ok || fd.Body == nil {
 				continue
-			}
-			// the scope parameter of the function
-			var scopeParam types.Object
-			if fd.Type.Params != nil {
-				for _, fl := range fd.Type.Params.List {
-					for _, nm := range fl.Names {
-						if isScope(info.TypeOf(nm)) {
-							scopeParam = info.Defs[nm]
-						}
-					}
-				}
 			}
 			k := 0
 			ast.Inspect(fd.Body, func(x ast.Node) bool {
@@ -856,79 +995,7 @@ func ruleR167(c *Ctx) {
 					return true
 				}
 				k++
-				n++
-				key := fmt.Sprintf("%s#let-value-scope[%d]", declName(root, fd), k)
-				vid, ok := ast.Unparen(value).(*ast.Ident)
-				if !ok {
-					c.OK(key, cl.Pos(), "the value is built in place")
-					return true
-				}
-				vobj := info.ObjectOf(vid)
-				// the parse calls that define the value: calls with a scope argument
-				var parseCalls []*ast.CallExpr
-				ast.Inspect(fd.Body, func(y ast.Node) bool {
-					as, ok := y.(*ast.AssignStmt)
-					if !ok || len(as.Rhs) != 1 || as.Pos() > cl.Pos() {
-						return true
-					}
-					if id, ok := as.Lhs[0].(*ast.Ident); !ok || info.ObjectOf(id) != vobj {
-						return true
-					}
-					if call, ok := ast.Unparen(as.Rhs[0]).(*ast.CallExpr); ok {
-						for _, a := range call.Args {
-							if isScope(info.TypeOf(a)) {
-								parseCalls = append(parseCalls, call)
-								break
-							}
-						}
-					}
-					return true
-				})
-				if len(parseCalls) == 0 {
-					c.OK(key, cl.Pos(), "the value is not the result of a parse call with a scope (a closure literal built in place)")
-					return true
-				}
-				if scopeParam == nil {
-					c.Undecided(key, cl.Pos(), "the function has no scope parameter")
-					return true
-				}
-				bad := ""
-				for _, call := range parseCalls {
-					for _, a := range call.Args {
-						if !isScope(info.TypeOf(a)) {
-							continue
-						}
-						// the argument has to be the scope parameter itself (or a local with one definition that is it)
-						e := ast.Unparen(a)
-						for depth := 0; depth < 3; depth++ {
-							id, ok := e.(*ast.Ident)
-							if !ok {
-								break
-							}
-							obj := info.ObjectOf(id)
-							if obj == scopeParam {
-								break
-							}
-							if as, i := definingAssign(info, fd, obj); as != nil && len(as.Rhs) == len(as.Lhs) && countAssignments(info, fd, obj) == 1 {
-								e = ast.Unparen(as.Rhs[i])
-								continue
-							}
-							break
-						}
-						if id, ok := e.(*ast.Ident); ok && info.ObjectOf(id) == scopeParam && countAssignments(info, fd, scopeParam) == 0 {
-							continue
-						}
-						bad = nodeStr(c.Fset, a)
-						if id, ok := ast.Unparen(a).(*ast.Ident); ok && countAssignments(info, fd, info.ObjectOf(id)) > 1 {
-							bad += " (assigned more than once: on some path an extended scope)"
-						}
-					}
-				}
-				if bad == "" {
-					c.OK(key, cl.Pos(), "the value of the let is parsed with the scope the function was given")
-				} else {
-					c.Violation(key, cl.Pos(), "the value of a let is parsed with the scope %s instead of the scope of the enclosing code: a name that the let itself (or anything else added to that scope) binds is then resolved inside the value, where it is not in scope - in implicit attribute mode the attribute of that name is shadowed (let a = x -> x + a means m.a), with explicit arguments an outer binding is", bad)
-				}
+				check(fd, value, cl.Pos(), fmt.Sprintf("%s#let-value-scope[%d]", declName(root, fd), k), cl.Pos(), 0)
 				return true
 			})
 		}
